@@ -71,6 +71,21 @@ func genC03Case(rng *fw.Rng) (*SnapCase, string) {
 		return nil, "no-accepted-set"
 	}
 	gs := fw.Pick(rng, sets)
+	if rng.Chance(1, 6) {
+		// beyond the stated domain, same oracle: a translated copy of NetherlandsRDNewQuad whose corners do not convert
+		// to integers evenly (x and y span may differ by a unit); the reported deviation must still bound the distance
+		var tr []*grid.Set
+		for _, z := range gridZoo() {
+			if z.Spec.Name != "" {
+				if t, err := getSet(z.Spec); err == nil {
+					tr = append(tr, t)
+				}
+			}
+		}
+		if len(tr) > 0 {
+			gs = fw.Pick(rng, tr)
+		}
+	}
 	var usable []int
 	for _, id := range gs.IDs {
 		if gs.Level(id) <= 32 {
@@ -148,7 +163,7 @@ func judgeC03(c *fw.Ctx, sc *SnapCase) {
 		c.Rec.Abort(fmt.Sprintf("snap.SnapPolygon panicked: %v; judged by C06", pan), cj)
 		return
 	}
-	c.Rec.Count("set:" + sc.TMS.String())
+	countSet(c.Rec, sc)
 	bound := math.Abs(devU) + 1e-8
 	spanX := gs.TR[0] - gs.BL[0]
 	ncoords := 0
@@ -210,7 +225,7 @@ func init() {
 			}
 			judgeC03(c, &sc)
 		},
-		Rule: "every built-in set accepted by IsQuadTree x random subsets (1-3) of its ids with level <= 32 x small polygons (1-6 cells) at uniform places, the far end and the origin end of the extent x flags; oracle in 200-bit floats: every returned ordinate v has |v - (o + (k+1/2)p)| <= |reported deviation of the deepest requested id| + 1e-8 with p = root extent / 2^level, o = extent corner; and p*16 equals the document's cell size within 1e-6 relative; non-trivial/distinct = (set, tile matrix, pixel column) triples seen in results",
+		Rule: "every built-in set accepted by IsQuadTree (and, in 1 case of 6, a translated copy of NetherlandsRDNewQuad whose corners do not convert to integers evenly: x span and y span differing by a unit) x random subsets (1-3) of its ids with level <= 32 x small polygons (1-6 cells) at uniform places, the far end and the origin end of the extent x flags; oracle in 200-bit floats: every returned ordinate v has |v - (o + (k+1/2)p)| <= |reported deviation of the deepest requested id| + 1e-8 with p = root extent / 2^level, o = extent corner; and p*16 equals the document's cell size within 1e-6 relative; non-trivial/distinct = (set, tile matrix, pixel column) triples seen in results",
 		Required: func(string) []string {
 			return []string{"cases_returning_3+_coordinates", "set:NetherlandsRDNewQuad", "set:WebMercatorQuad", "set:EuropeanETRS89_LAEAQuad"}
 		},
